@@ -17,8 +17,8 @@ add("C05", "runtime framing-invariant monitor on Marshal output (size vs Marshal
 add("C06", "runtime conservation / locality checker over generated frame traces (exactly-once, concatenation, context-freedom, all-or-nothing) of rtcp.Unmarshal",
     "Exploration: the generator logs the frame sequence it emits; the checker compares what rtcp.Unmarshal returns with per-frame decodes, at every split point, with malformed frames inserted at every position, tails cut inside frames, surplus octets, maximum-length frames and the empty datagram.",
     "A malformed frame is self-delimiting and rejected alone; boundary cuts are concatenation cases.", "5/C06")
-add("C07", "runtime dispatch-table oracle over all 256x32x2 header combinations, foreign-type rejection matrix over all ordered type pairs, self-dispatch of Marshal output",
-    "Exploration with an exhaustive header space: every (PT, count/FMT, P) combination is dispatched with several bodies; every ordered (decoder, foreign class) pair is exercised with generated well-formed foreign packets.",
+add("C07", "runtime dispatch-table oracle over all 256x32x2 header combinations, foreign-type rejection matrix over all ordered type pairs, self-dispatch of Marshal output; cold-start child processes whose first decodes are made by many goroutines at once, with and without the Go race detector",
+    "Exploration with an exhaustive header space: every (PT, count/FMT, P) combination is dispatched with several bodies; every ordered (decoder, foreign class) pair is exercised with generated well-formed foreign packets; child processes make their very first decodes from 2..32 goroutines at once (a dispatch table built lazily on first use is otherwise never observed half-built) and are compared with a sequential child.",
     "Bodies are sampled; for registered combinations with the padding bit only the type of an accepted result is judged.", "5/C07")
 add("C08", "runtime limit-table monitor: every wire limit probed at limit-1, limit, limit+1 and far beyond in random surroundings; accepted output compared with the reference encoding",
     "Exploration over a complete table of the limits the statement names: over-limit values must yield an error and no octets, at/under-limit values must be accepted and their octets must equal the independent reference encoding (which is what exposes wrap-arounds that keep err == nil).",
@@ -32,8 +32,8 @@ add("C10", "runtime comparison of DestinationSSRC() with a reference list derive
 add("C11", "runtime comparison of Validate/Marshal/Unmarshal/CNAME/DestinationSSRC/MarshalSize with an independent acceptor of the RFC 3550 compound grammar, exhaustive over member-kind sequences",
     "Exploration with exhaustive structure: all sequences over 12 member kinds up to length 4 (quick) / 6 (thorough) with freshly generated member contents, plus random sequences up to length 40.",
     "Member contents are sampled; the kind alphabet is my partition of the packet space.", "5/C11")
-add("C12", "runtime set-cover / order / early-stop oracles on the NACK pair helpers with exhaustive enumeration of (PacketID, bitmap) pairs",
-    "Exploration with exhaustive sub-domains: all 2^16 bitmaps x 40 ids (quick) / all 2^32 pairs (thorough), all 18 early-stop positions x all bitmaps, all short lists over a wrap-straddling window, random long lists.",
+add("C12", "runtime set-cover / order / early-stop oracles on the NACK pair helpers with exhaustive enumeration of (PacketID, bitmap) pairs; cold-start child processes whose first calls are made by many goroutines at once, with and without the Go race detector",
+    "Exploration with exhaustive sub-domains: all 2^16 bitmaps x 40 ids (quick) / all 2^32 pairs (thorough), all 18 early-stop positions x all bitmaps, all short lists over a wrap-straddling window, random long lists; child processes whose first PacketList/Range/NackPairsFromSequenceNumbers calls come from 2..32 goroutines at once, compared with a sequential child.",
     "Arbitrary-length input lists are sampled.", "5/C12")
 add("C13", "runtime comparison of every accepted TWCC decode with an independent expansion of the raw octets; chunking invariance over reference encodings of random valid chunkings",
     "Exploration: an independent walker expands chunk words and delta octets from the raw bytes; chunk list, delta count/size class/value and bounds of every accepted decode must agree; K chunkings of the same status sequence must decode to the same statuses and deltas.",
@@ -50,6 +50,6 @@ add("C16", "exhaustive run-time enumeration of each fixed-width wire unit throug
 add("C17", "runtime panic monitor on String()/fmt formatting, including a scan of fmt output for recovered String panics",
     "Exploration: every packet decoded from the manufactured accepted corpus, generated values of all types, compound packets mixing all types, all 2^24 REMB wire pairs, all values of the enum-like types and all 2^16 XR chunks are formatted by String() and by fmt with %v/%+v/%s on pointer and value forms.",
     "Datagram sizes are capped because several String methods are quadratic.", "5/C17")
-add("C18", "purity snapshots and random call histories against per-(packet, operation) baselines; Go race detector over shared-object workloads with an unsynchronised monitor",
+add("C18", "purity snapshots and random call histories against per-(packet, operation) baselines; Go race detector over shared-object workloads with an unsynchronised monitor; cold-start child processes (first calls into the package made concurrently); fresh-process baselines",
     "Exploration of schedules and histories: sequential purity and history monitors, then 16 (goroutines, GOMAXPROCS) configurations of mixed read-only operations on shared packets, decodes of shared buffers and arbitrary operations on private clones under the race detector; the evidence states how many operation pairs on the same shared object actually overlapped in time.",
     "Interleavings are sampled; the race detector sees only executed accesses.", "5/C18")
